@@ -13,6 +13,7 @@ cd "$WT"
 if ! git apply --check "$SRC/patch.diff" 2>/dev/null; then echo "$NAME: patch does not apply to /repo HEAD"; exit 4; fi
 git apply "$SRC/patch.diff"
 # the differential checks were written against the author's worktree path: rewrite it to this worktree
+cp "$SRC"/expected*.json "$WT"/ 2>/dev/null
 sed -E "s#/tmp/wt[0-9]+-C[0-9]+#$WT#g" "$SRC/diff_check.py" > "$WT/.diff_check.py"
 PYTHONPATH="$WT/src" timeout 1200 /venv/bin/python "$WT/.diff_check.py" >/tmp/vtwin-$NAME.diff 2>&1; D=$?
 grep -q PASS /tmp/vtwin-$NAME.diff && DP=1 || DP=0
@@ -23,6 +24,7 @@ echo "$NAME: diff_check rc=$D pass=$DP, tests rc=$T ($TAIL)"
 if [ $D -eq 0 ] && [ $DP -eq 1 ] && [ $T -eq 0 ]; then
   mkdir -p /verif/twins/$NAME
   cp "$SRC/patch.diff" "$SRC/diff_check.py" /verif/twins/$NAME/
+  cp "$SRC"/expected*.json /verif/twins/$NAME/ 2>/dev/null
   /venv/bin/python - "$SRC/meta.json" "/verif/twins/$NAME/meta.json" "$TAIL" <<'PY'
 import json, sys
 src, dst, tail = sys.argv[1:4]
